@@ -213,6 +213,72 @@ fn c08_eval(ctx: &mut Ctx, known: &Known, members: &[Yaml], docs: &[Yaml], tag: 
     known_hits
 }
 
+/// all(X) / of(X, n) over a sequence of mappings whose rows use DIFFERENT subsets of the fields (a
+/// table with empty cells once the matrix pass has run): every row counts, whatever cells it leaves
+/// empty — every switch combination with the matrix pass.
+fn c08_sparse_rows(ctx: &mut Ctx) {
+    use crate::suites::{t_and, t_of, t_or, Tri};
+    let row_sets: Vec<Vec<Vec<(&str, u64)>>> = vec![
+        vec![vec![("a", 1)], vec![("b", 2)], vec![("a", 3), ("b", 4)]],
+        vec![vec![("b", 2)], vec![("a", 1), ("c", 5)], vec![("c", 6)], vec![("a", 3), ("b", 4), ("c", 7)]],
+        vec![vec![("a", 1), ("b", 2)], vec![("c", 5)], vec![("b", 4)]],
+        vec![vec![("c", 5)], vec![("b", 2), ("c", 6)], vec![("a", 1), ("c", 7)]],
+    ];
+    let mut docs: Vec<Yaml> = vec![];
+    for a in [None, Some(0u64), Some(1), Some(3)] {
+        for b in [None, Some(2u64), Some(4)] {
+            for c in [None, Some(5u64), Some(7)] {
+                let mut m = Mapping::new();
+                if let Some(v) = a { m.insert(ys("a"), Yaml::Number(v.into())); }
+                if let Some(v) = b { m.insert(ys("b"), Yaml::Number(v.into())); }
+                if let Some(v) = c { m.insert(ys("c"), Yaml::Number(v.into())); }
+                docs.push(Yaml::Mapping(m));
+            }
+        }
+    }
+    let masks = vec![0u64, 8, 10, 12, 14, 15, 9];
+    for rows in &row_sets {
+        let seq = Yaml::Sequence(rows.iter().map(|r| mapn2(r.iter().map(|(k, v)| (*k, Yaml::Number((*v).into()))).collect())).collect());
+        let row_tri = |d: &Yaml, r: &Vec<(&str, u64)>| -> Tri {
+            let cells: Vec<Tri> = r.iter().map(|(k, v)| match d.as_mapping().and_then(|m| m.get(ys(k))).and_then(|x| x.as_u64()) { Some(x) if x == *v => Tri::T, Some(_) => Tri::F, None => Tri::M }).collect();
+            t_and(&cells)
+        };
+        let mut conds: Vec<(String, Box<dyn Fn(&[Tri]) -> Tri>)> = vec![("X".into(), Box::new(|v| t_or(v))), ("all(X)".into(), Box::new(|v| t_and(v)))];
+        for n in 1..=rows.len() {
+            conds.push((format!("of(X, {})", n), Box::new(move |v| t_of(n, v))));
+        }
+        for (cond, table) in conds {
+            let c = case_of(vec![("X".into(), seq.clone()), ("condition".into(), ys(&cond))], docs.clone(), masks.clone());
+            let (ex, p) = run_rule_case(ctx, &c, false);
+            let p = match p {
+                Some(p) if p.load == "ok" => p,
+                _ => continue,
+            };
+            ctx.nontrivial.insert(hash_str(&ex.line));
+            for mask in &masks {
+                // what optimisation changes in the COUNT of a reshaped group is C01's recorded finding
+                // when the model reproduces it; anything else is judged here
+                if *mask != 0 && ex.agree {
+                    continue;
+                }
+                let got = verdicts_of(&p, *mask);
+                let mut bad = None;
+                for (j, d) in docs.iter().enumerate() {
+                    let v: Vec<Tri> = rows.iter().map(|r| row_tri(d, r)).collect();
+                    if got[j] != (table(&v) == Tri::T) {
+                        bad = Some((j, v));
+                        break;
+                    }
+                }
+                if let Some((j, v)) = bad {
+                    ctx.violation("oracle", &format!("`{}` over rows with empty cells (mask {}): document {} gives {}, the rows are {:?}", cond, mask, serde_yaml::to_string(&docs[j]).unwrap_or_default().replace('\n', " "), got[j], v), &ex, &rule_yaml(&c), true);
+                    break;
+                }
+            }
+        }
+    }
+}
+
 pub fn run_c08(ctx: &mut Ctx, known: &Known) {
     // recorded witnesses first (member lists stored in known_findings.json)
     for f in known.for_prop("C08") {
@@ -236,6 +302,21 @@ pub fn run_c08(ctx: &mut Ctx, known: &Known) {
         ] {
             let members: Vec<Yaml> = ms.iter().map(|m| ys(m)).collect();
             let hits = c08_eval(ctx, known, &members, &docs, &format!("repeat:{}", ms.join(",")));
+            if hits > 0 {
+                *ctx.known_hits.entry("random:C08-batched-member".into()).or_insert(0) += hits;
+            }
+        }
+    }
+    c08_sparse_rows(ctx);
+    // numbers of every spelling as members: a whole-valued float member is still a FLOAT member
+    // (it holds for the double 2.0, not for the integer 2), alone and next to others
+    {
+        let f = |x: f64| Yaml::Number(x.into());
+        let docs: Vec<Yaml> = vec![f(2.0), Yaml::Number(2u64.into()), f(3.5), Yaml::Number(1000u64.into()), f(1000.0), ys("2"), ys("2.0"), f(-0.0), Yaml::Number(0u64.into()), Yaml::Number((-3i64).into()), f(-3.0)].into_iter().map(|v| map1("f", v)).collect();
+        for members in [
+            vec![f(2.0), f(3.5)], vec![f(2.0)], vec![f(1e3), f(2.5)], vec![f(2.0), ys("<3.5")], vec![Yaml::Number(2u64.into()), f(2.0)], vec![f(0.0), Yaml::Number(0u64.into())], vec![f(-3.0), f(1e3), Yaml::Number(1000u64.into())], vec![f(2.0), ys("a*")],
+        ] {
+            let hits = c08_eval(ctx, known, &members, &docs, &format!("numbers:{}", members.len()));
             if hits > 0 {
                 *ctx.known_hits.entry("random:C08-batched-member".into()).or_insert(0) += hits;
             }
@@ -813,6 +894,60 @@ pub fn run_c11(ctx: &mut Ctx, _known: &Known) {
             }
         }
     }
+    // (1h) a hand-written Array whose members are rendered on demand (OWNED strings), and paths whose
+    //      segments are digits (a plain segment is a KEY, `[n]` is an array index) — in every
+    //      representation, top level and nested
+    {
+        struct Rendered(Vec<u32>);
+        impl tau_engine::Array for Rendered {
+            fn iter(&self) -> Box<dyn Iterator<Item = Value<'_>> + '_> {
+                Box::new(self.0.as_slice().iter().map(|n: &u32| Value::String(Cow::Owned(format!("10.0.0.{}", n)))))
+            }
+            fn len(&self) -> usize { self.0.len() }
+        }
+        enum Fld { Arr(Rendered), Name(String) }
+        impl AsValue for Fld {
+            fn as_value(&self) -> Value<'_> {
+                match self { Fld::Arr(a) => Value::Array(a), Fld::Name(s) => Value::String(Cow::Owned(s.clone())) }
+            }
+        }
+        for (body, cond) in [("addrs: 10.0.0.7", "A"), ("addrs: '10.0.0.*'", "A"), ("addrs: '?\\.7$'", "A"), ("all(addrs): ['10.*', '*.7']", "A"), ("of(addrs, 2): ['10.*', '*.7', '*.9']", "A"), ("addrs: ['i10.0.0.7', x]", "A"), ("addrs: 10.0.0.7", "not A"), ("name: 'web*'", "A"), ("addrs[1]: 10.0.0.7", "A"), ("str(addrs): '*.9'", "A")] {
+            let text = format!("detection:\n  A:\n    {}\n  condition: {}\ntrue_positives: []\ntrue_negatives: []\n", body, cond);
+            let rule = match Rule::from_str(&text) { Ok(r) => r, Err(_) => continue };
+            for mask in [0u64, 15] {
+                let rl = if mask == 0 { rule.clone() } else { rule.clone().optimise(implside::opts(mask)) };
+                ctx.evaluations += 1;
+                ctx.nontrivial.insert(hash_str(&format!("owned{}{}{}", body, cond, mask)));
+                let ym: Mapping = serde_yaml::from_str("{addrs: ['10.0.0.3', '10.0.0.7'], name: web01}").unwrap();
+                let js = serde_json::json!({ "addrs": ["10.0.0.3", "10.0.0.7"], "name": "web01" });
+                let mut hm: HashMap<String, Fld> = HashMap::new();
+                hm.insert("addrs".into(), Fld::Arr(Rendered(vec![3, 7])));
+                hm.insert("name".into(), Fld::Name("web01".into()));
+                let reps = [("yaml mapping", rl.matches(&ym)), ("serde_json value", rl.matches(&js)), ("HashMap with a hand-written Array of owned strings", rl.matches(&hm))];
+                if reps.iter().any(|(_, b)| *b != reps[0].1) {
+                    let dummy = ctx.exchange("tok s:");
+                    ctx.violation("oracle", &format!("rule `{}` ({}, mask {}): verdicts differ between representations: {:?}", body, cond, mask, reps), &dummy, &text, true);
+                }
+            }
+        }
+        for (body, cond) in [("argv.2: whoami", "A"), ("argv[2]: whoami", "A"), ("ports[443]: open", "A"), ("ports.443: open", "A"), ("ports.0: closed", "A"), ("ports[0]: closed", "A"), ("argv.0: cmd.exe", "A"), ("argv.2: whoami", "not A"), ("inner.argv.1: /c", "A"), ("inner.argv[1]: /c", "A"), ("inner.ports[443]: open", "A"), ("inner:\n      ports[443]: open", "A"), ("inner:\n      argv.1: /c", "A"), ("'0': zero", "A"), ("'[0]': zero", "A")] {
+            let text = format!("detection:\n  A:\n    {}\n  condition: {}\ntrue_positives: []\ntrue_negatives: []\n", body, cond);
+            let rule = match Rule::from_str(&text) { Ok(r) => r, Err(_) => continue };
+            ctx.evaluations += 1;
+            ctx.nontrivial.insert(hash_str(&format!("digits{}{}", body, cond)));
+            let ytext = "{argv: [cmd.exe, /c, whoami], ports: {'0': closed, '443': open}, '0': zero, inner: {argv: [cmd.exe, /c, whoami], ports: {'0': closed, '443': open}}}";
+            let yv: Yaml = serde_yaml::from_str(ytext).unwrap();
+            let ym = yv.as_mapping().unwrap().clone();
+            let js = json_of_yaml(&yv).unwrap();
+            let hm: HashMap<String, serde_json::Value> = js.as_object().map(|o| o.iter().map(|(k, v)| (k.clone(), v.clone())).collect()).unwrap_or_default();
+            let my = match my_of_yaml(&yv) { MyVal::Obj(o) => o, _ => continue };
+            let reps = [("yaml mapping", rule.matches(&ym)), ("serde_json value", rule.matches(&js)), ("HashMap<String, serde_json::Value>", rule.matches(&hm)), ("hand-written Object", rule.matches(&my))];
+            if reps.iter().any(|(_, b)| *b != reps[0].1) {
+                let dummy = ctx.exchange("tok s:");
+                ctx.violation("oracle", &format!("rule `{}` ({}): verdicts differ between representations: {:?}", body.replace('\n', " "), cond, reps), &dummy, &text, true);
+            }
+        }
+    }
     // (2) the same logical document in four representations gives the same verdicts
     let n = budget(ctx, 1200, 30000);
     for i in 0..n {
@@ -1051,6 +1186,41 @@ pub fn run_c12(ctx: &mut Ctx, _known: &Known) {
             }
         }
     }
+    // a process started in a LOUD environment: every variable the engine's source so much as names
+    // (upper-case string literals in /repo/src) is set, next to the usual suspects — the engine is a
+    // function of (rule text, switches, document), not of the environment
+    let mut loud_env: Vec<(String, String)> = [("RUST_LOG", "trace"), ("LANG", "tr_TR.UTF-8"), ("LC_ALL", "tr_TR.UTF-8"), ("TZ", "Pacific/Kiritimati"), ("NO_COLOR", "1"), ("RUST_BACKTRACE", "0"), ("TAU_ENGINE", "1"), ("TAU", "1"), ("DEBUG", "1"), ("CI", "1")].iter().map(|(k, v)| (k.to_string(), v.to_string())).collect();
+    {
+        fn scan(dir: &std::path::Path, out: &mut Vec<String>) {
+            if let Ok(rd) = std::fs::read_dir(dir) {
+                for e in rd.flatten() {
+                    let p = e.path();
+                    if p.is_dir() {
+                        scan(&p, out);
+                    } else if p.extension().map(|x| x == "rs").unwrap_or(false) {
+                        if let Ok(t) = std::fs::read_to_string(&p) {
+                            for piece in t.split('"').skip(1).step_by(2) {
+                                if piece.len() >= 3 && piece.len() <= 48 && piece.chars().next().map(|c| c.is_ascii_uppercase()).unwrap_or(false) && piece.chars().all(|c| c.is_ascii_uppercase() || c.is_ascii_digit() || c == '_') {
+                                    out.push(piece.to_string());
+                                }
+                            }
+                        }
+                    }
+                }
+            }
+        }
+        let mut names = vec![];
+        scan(std::path::Path::new("/repo/src"), &mut names);
+        names.sort();
+        names.dedup();
+        for n in names {
+            for v in ["1"] {
+                loud_env.push((n.clone(), v.to_string()));
+            }
+        }
+    }
+    ctx.stat(&format!("loud-env-variables-{}", loud_env.len()));
+    let mut loud = Driver::spawn_cmd_env(&std::env::current_exe().unwrap().to_string_lossy(), &["serve"], &loud_env).ok();
     c12_history(ctx);
     c12_twins(ctx);
     c12_logging(ctx);
@@ -1078,6 +1248,13 @@ pub fn run_c12(ctx: &mut Ctx, _known: &Known) {
         if other != ex.imp {
             ctx.violation("oracle", &format!("a fresh process answers differently: {}", first_diff(&ex.imp, &other)), &ex, &ry, true);
             continue;
+        }
+        if let Some(l) = loud.as_mut() {
+            let other = l.ask(&ex.line);
+            if other != ex.imp && other != "DRIVER-DEAD" {
+                ctx.violation("oracle", &format!("a process started with other environment variables answers differently: {}", first_diff(&ex.imp, &other)), &ex, &ry, true);
+                continue;
+            }
         }
         let rule = match Rule::from_value(implside::rule_value(&c)) {
             Ok(r) => r,
@@ -1423,12 +1600,35 @@ fn c12_passes_and_races(ctx: &mut Ctx) {
         let rule = match Rule::from_str(&text) { Ok(r) => r, Err(_) => continue };
         ctx.evaluations += 1;
         ctx.nontrivial.insert(hash_str(&format!("bigopt{}x{}m{}", fields, per, mode)));
+        // documents that tell the kinds of the members apart: the needle text in front, in the
+        // middle and at the end of the value
+        let mut vdocs: Vec<Mapping> = vec![];
+        for fi in 0..fields.min(2) {
+            for k in 0..per.min(8) {
+                let kind = match mode { 0 => 0, 1 => k % 3, _ => k % 4 };
+                let needle = match kind { 0 => format!("f{}-needle-{:04}-padding-padding-padding", fi, k), 1 => format!("f{}-start-{:04}-padding-padding-padding", fi, k), 2 => format!("f{}-end-{:04}-padding-padding-padding", fi, k), _ => format!("f{}-CI-{:04}-padding-padding", fi, k) };
+                for v in [format!("xx{}yy", needle), format!("{}yy", needle), format!("xx{}", needle)] {
+                    let mut m = Mapping::new();
+                    m.insert(ys(&format!("fld{}", fi)), ys(&v));
+                    vdocs.push(m);
+                }
+            }
+        }
         for mask in [15u64, 2, 3] {
-            let reference = format!("{}", rule.clone().optimise(implside::opts(mask)).detection.expression);
+            let first = rule.clone().optimise(implside::opts(mask));
+            let reference = format!("{}", first.detection.expression);
+            // (whether these verdicts equal the plain rule's is C01's question, not asked here)
+            let plain_verdicts: Vec<bool> = vdocs.iter().map(|d| first.matches(d)).collect();
             let mut differs: Option<String> = None;
             for _ in 0..24 {
-                let p = format!("{}", rule.clone().optimise(implside::opts(mask)).detection.expression);
+                let o = rule.clone().optimise(implside::opts(mask));
+                let p = format!("{}", o.detection.expression);
                 if p != reference && differs.is_none() { differs = Some(p); }
+                let vs: Vec<bool> = vdocs.iter().map(|d| o.matches(d)).collect();
+                if vs != plain_verdicts && differs.is_none() {
+                    let j = (0..vs.len()).find(|j| vs[*j] != plain_verdicts[*j]).unwrap_or(0);
+                    differs = Some(format!("same print, but the verdict on {:?} is {} (first optimise call: {})", vdocs[j], vs[j], plain_verdicts[j]));
+                }
             }
             let handles: Vec<_> = (0..8).map(|_| { let r2 = rule.clone(); std::thread::spawn(move || format!("{}", r2.optimise(implside::opts(mask)).detection.expression)) }).collect();
             for h in handles {
@@ -1989,6 +2189,24 @@ pub fn run_c15(ctx: &mut Ctx, _known: &Known) {
                 }
             }
             for t in ["café.exe", "٣٣", "net\u{a0}user", "écmd", "cmd", "éé", "é", "Ж", "a ", "a\u{a0}", "cafe.exe", "12"] {
+                c.docs.push(map1("s", ys(t)));
+            }
+        }
+        // inline flag groups of a regex belong to the pattern: `(?-i)` keeps its part case-sensitive
+        // in both builds
+        if i % 11 == 3 {
+            let rx = ["?^(?-i)PsExec", "?(?-i:Ps)exec", "?^(?-i:net)\\s+USER", "?a(?s-i)B.c", "?(?i)abc(?-i)DEF", "?^((?-i)x|y)z$", "?(?-i)", "?\\(?-i\\)q"];
+            let pick = rx[(i / 11) % rx.len()];
+            let v = if i % 2 == 0 { ys(pick) } else { Yaml::Sequence(vec![ys(pick), ys(rx[(i / 11 + 3) % rx.len()]), ys("zq*")]) };
+            c.det.push(("R".into(), map1("s", v)));
+            for (k, cv) in c.det.iter_mut() {
+                if k == "condition" {
+                    if let Yaml::String(t) = cv {
+                        *t = if i % 3 == 0 { format!("({}) or R", t) } else { "R".to_string() };
+                    }
+                }
+            }
+            for t in ["psexec64.exe", "PsExec64.exe", "PSEXEC", "net user", "NET USER", "net  USER", "aB\nc", "ab\nc", "ABCDEF", "abcDEF", "abcdef", "xz", "Xz", "YZ", "(?-i)q", "q"] {
                 c.docs.push(map1("s", ys(t)));
             }
         }
